@@ -147,227 +147,12 @@ def lex2(s):
 
 
 # ----------------------------------------------------------------------------------------------
-# alignment frozen -> template (insert-only)
-
-def align_insert_only(base, tmpl, what):
-    """returns match: list m with m[i] = index in tmpl of base token i (strictly increasing)"""
-    bt, tt = texts(base), texts(tmpl)
-    sm = difflib.SequenceMatcher(None, bt, tt, autojunk=False)
-    m = [None] * len(bt)
-    ok = True
-    for tag, i1, i2, j1, j2 in sm.get_opcodes():
-        if tag == 'equal':
-            for k in range(i2 - i1):
-                m[i1 + k] = j1 + k
-        elif tag == 'insert':
-            pass
-        else:
-            ok = False
-            break
-    if not ok:
-        m = _lcs_align(bt, tt)
-        if m is None:
-            # produce a helpful message: first base token that cannot be matched greedily
-            j = 0
-            for i, x in enumerate(bt):
-                while j < len(tt) and tt[j] != x:
-                    j += 1
-                if j >= len(tt):
-                    ctx = ' '.join(bt[max(0, i - 8):i + 4])
-                    raise WeaveError('%s: template is not "repo text + insertions": repo token %r '
-                                     '(line %d, near `%s`) has no counterpart in the template'
-                                     % (what, x, base[i].line, ctx))
-                j += 1
-            raise WeaveError('%s: template is not a supersequence of the repo text' % what)
-    _rebalance(m, tmpl)
-    return m
-
-
-def _lcs_align(bt, tt):
-    """exact subsequence embedding, preferring late matches for closers; None if bt is not a subsequence of tt"""
-    # greedy leftmost embedding is a valid embedding if any exists
-    m = []
-    j = 0
-    for x in bt:
-        while j < len(tt) and tt[j] != x:
-            j += 1
-        if j >= len(tt):
-            return None
-        m.append(j)
-        j += 1
-    return m
-
-
-def _depth_profile(toks):
-    d = 0
-    lo = 0
-    for t in toks:
-        if t.text in lexer.OPEN:
-            d += 1
-        elif t.text in lexer.CLOSE:
-            d -= 1
-            lo = min(lo, d)
-    return d, lo
-
-
-def _rebalance(m, tmpl):
-    """Make inserted runs bracket-balanced: a repo closer must be matched with the first closer of the template
-    that is unbalanced inside the would-be inserted run, a repo opener with the last unclosed opener."""
-    n = len(m)
-    for _ in range(20000):
-        changed = False
-        for i in range(n + 1):
-            j = m[i] if i < n else len(tmpl)
-            prev = m[i - 1] if i > 0 else -1
-            if j <= prev + 1:
-                continue
-            d = 0
-            first_neg = None
-            stack = []
-            for x in range(prev + 1, j):
-                t = tmpl[x].text
-                if t in lexer.OPEN:
-                    stack.append(x)
-                    d += 1
-                elif t in lexer.CLOSE:
-                    if stack:
-                        stack.pop()
-                    elif first_neg is None:
-                        first_neg = x
-                    d -= 1
-            if first_neg is not None and i < n and tmpl[first_neg].text == tmpl[j].text:
-                m[i] = first_neg
-                changed = True
-                break
-            if stack and i > 0 and tmpl[stack[-1]].text == tmpl[prev].text:
-                m[i - 1] = stack[-1]
-                changed = True
-                break
-        if not changed:
-            break
-    return m
-
-
-# ----------------------------------------------------------------------------------------------
-# ghost form validation
+# ghost erasure: which template tokens are specification text?
 
 CLAUSE_KW = {'requires', 'ensures', 'invariant', 'invariant_except_break', 'decreases', 'recommends',
              'returns', 'no_unwind'}
-ALLOWED_ATTR = re.compile(r'^#\[verifier::(rlimit\([0-9]+\)|spinoff_prover|loop_isolation\((true|false)\)|'
-                          r'integer_ring|nonlinear|bit_vector)\]$')
-
-
-def ghost_form(run, prev_text, next_text, what):
-    """check that an inserted token run is specification-only text.  Returns list of form names.
-    Raises WeaveError otherwise."""
-    forms = []
-    i = 0
-    n = len(run)
-    tx = [t.text for t in run]
-
-    def balanced_until(k, stops):
-        d = 0
-        while k < n:
-            x = tx[k]
-            if d == 0 and x in stops:
-                return k
-            if x in lexer.OPEN:
-                d += 1
-            elif x in lexer.CLOSE:
-                d -= 1
-                if d < 0:
-                    return k
-            k += 1
-        return k
-
-    while i < n:
-        x = tx[i]
-        # return value naming:  -> ( r :    ...   )
-        if x == '(' and prev_text == '->' and i == 0 and n >= 3 and tx[2] == ':' and n == 3:
-            forms.append('ret-name-open')
-            i = 3
-            continue
-        if x == ')' and i == 0 and (n == 1 or tx[1] in CLAUSE_KW):
-            forms.append('ret-name-close')
-            i = 1
-            continue
-        if x in CLAUSE_KW:
-            # clauses run to the end of the inserted run; the next real token must open the body
-            k = i
-            d = 0
-            while k < n:
-                if tx[k] in lexer.OPEN:
-                    d += 1
-                elif tx[k] in lexer.CLOSE:
-                    d -= 1
-                k += 1
-            if d != 0 or next_text != '{':
-                raise WeaveError('%s: clause run not followed by body `{` (next=%r): %s' % (what, next_text, ' '.join(tx[i:i + 12])))
-            forms.append('clauses')
-            i = n
-            continue
-        # for-loop ghost iterator name:  in  it :
-        if prev_text == 'in' and i == 0 and n == 2 and tx[1] == ':':
-            forms.append('for-iter-name')
-            i = 2
-            continue
-        if x == 'proof' and i + 1 < n and tx[i + 1] == '{':
-            k = _close(tx, i + 1)
-            forms.append('proof-block')
-            i = k + 1
-            continue
-        if x == 'let' and i + 1 < n and tx[i + 1] in ('ghost', 'tracked'):
-            k = balanced_until(i, {';'})
-            if k >= n:
-                raise WeaveError('%s: unterminated `let ghost`' % what)
-            forms.append('let-ghost')
-            i = k + 1
-            continue
-        if x in ('assert', 'reveal', 'reveal_with_fuel', 'broadcast'):
-            # assert(..); | assert(..) by {..} [;] | assert forall .. by {..} [;]
-            k = i + 1
-            d = 0
-            while k < n:
-                if d == 0 and tx[k] == ';':
-                    break
-                if d == 0 and tx[k] == 'by' and k + 1 < n and tx[k + 1] in ('{', '('):
-                    # by (mode) ... or by { }
-                    k2 = _close(tx, k + 1)
-                    if tx[k + 1] == '(' and k2 + 1 < n and tx[k2 + 1] == '{':
-                        k2 = _close(tx, k2 + 1)
-                    if tx[k + 1] == '(' and k2 + 1 < n and tx[k2 + 1] == 'requires':
-                        # by(nonlinear_arith) requires ... { }
-                        k3 = k2 + 1
-                        while k3 < n and tx[k3] != '{':
-                            k3 += 1
-                        k2 = _close(tx, k3)
-                    k = k2
-                    if k + 1 < n and tx[k + 1] == ';':
-                        k += 1
-                    break
-                if tx[k] in lexer.OPEN:
-                    d += 1
-                elif tx[k] in lexer.CLOSE:
-                    d -= 1
-                k += 1
-            if k >= n:
-                raise WeaveError('%s: unterminated `%s`' % (what, x))
-            forms.append(x)
-            i = k + 1
-            continue
-        if x == 'assume':
-            raise WeaveError('%s: `assume` inside a woven unit is not allowed' % what)
-        if x == '#' and i + 1 < n and tx[i + 1] == '[':
-            k = _close(tx, i + 1)
-            attr = ''.join(tx[i:k + 1])
-            if not ALLOWED_ATTR.match(attr):
-                raise WeaveError('%s: attribute %s may not be woven in' % (what, attr))
-            forms.append('attr')
-            i = k + 1
-            continue
-        raise WeaveError('%s: inserted text is not of a ghost form (prev=%r next=%r): `%s`'
-                         % (what, prev_text, next_text, ' '.join(tx[i:i + 14])))
-    return forms
+GHOST_STMT_KW = {'assert', 'reveal', 'reveal_with_fuel', 'broadcast'}
+ALLOWED_ATTR = re.compile(r'^#\[verifier::(rlimit\([0-9]+\)|spinoff_prover|loop_isolation\((true|false)\))\]$')
 
 
 def _close(tx, i):
@@ -379,47 +164,166 @@ def _close(tx, i):
             d -= 1
             if d == 0:
                 return k
-    raise WeaveError('unbalanced inserted text')
+    raise WeaveError('unbalanced bracket in template near token %d (%s)' % (i, ' '.join(tx[i:i + 8])))
 
 
-# ----------------------------------------------------------------------------------------------
+def _stmt_end(tx, i, what):
+    """end index (inclusive) of the ghost statement starting at tx[i] (`assert ..;`, `assert .. by {..}`, `let ghost ..;`)"""
+    n = len(tx)
+    k = i + 1
+    d = 0
+    while k < n:
+        x = tx[k]
+        if d == 0 and x == ';':
+            return k
+        if d == 0 and x == 'by' and k + 1 < n and tx[k + 1] in ('{', '('):
+            k2 = _close(tx, k + 1)
+            if tx[k + 1] == '(':
+                # by (mode) [requires ..] [{ .. }]
+                k3 = k2 + 1
+                if k3 < n and tx[k3] == 'requires':
+                    while k3 < n and tx[k3] not in ('{', ';'):
+                        if tx[k3] in lexer.OPEN:
+                            k3 = _close(tx, k3)
+                        k3 += 1
+                if k3 < n and tx[k3] == '{':
+                    k2 = _close(tx, k3)
+                elif k3 < n and tx[k3] == ';':
+                    return k3
+            if k2 + 1 < n and tx[k2 + 1] == ';':
+                return k2 + 1
+            return k2
+        if x in lexer.OPEN:
+            d += 1
+        elif x in lexer.CLOSE:
+            d -= 1
+            if d < 0:
+                break
+        k += 1
+    raise WeaveError('%s: unterminated ghost statement `%s`' % (what, ' '.join(tx[i:i + 10])))
 
-def insertions(base, tmpl, m, what):
-    """ins[p] = list of tokens inserted before base token p (p == len(base): after the last).
-    When a run is not of a ghost form, equivalent alignments are tried (the run is rotated over an equal token)."""
-    tried = set()
-    for _ in range(400):
-        ins = {}
-        prev = -1
-        forms = []
-        failure = None
-        for i in range(len(base) + 1):
-            j = m[i] if i < len(base) else len(tmpl)
-            if j > prev + 1:
-                run = tmpl[prev + 1:j]
-                prev_text = base[i - 1].text if i > 0 else ''
-                next_text = base[i].text if i < len(base) else ''
-                try:
-                    forms += ghost_form(run, prev_text, next_text, what)
-                except WeaveError as e:
-                    failure = (i, prev, j, run, e)
+
+def ghost_mask(tmpl, what):
+    """mask[i] == True iff template token i is specification (ghost) text.  Recognised purely syntactically:
+       proof { .. } | let ghost/tracked ..; | assert/reveal/broadcast ..; | requires/ensures/invariant/decreases clauses up
+       to the body brace | `-> (name: T)` result naming | `for p in name: e` iterator naming | #[verifier::rlimit/..]"""
+    tx = [t.text for t in tmpl]
+    n = len(tx)
+    mask = [False] * n
+    forms = []
+    i = 0
+    while i < n:
+        x = tx[i]
+        nx = tx[i + 1] if i + 1 < n else ''
+        if x == 'proof' and nx == '{':
+            k = _close(tx, i + 1)
+            for q in range(i, k + 1):
+                mask[q] = True
+            forms.append('proof-block')
+            i = k + 1
+            continue
+        if x == 'let' and nx in ('ghost', 'tracked'):
+            k = _stmt_end(tx, i, what)
+            for q in range(i, k + 1):
+                mask[q] = True
+            forms.append('let-ghost')
+            i = k + 1
+            continue
+        if x in GHOST_STMT_KW and nx != '!' and (i == 0 or tx[i - 1] not in ('.', '::')):
+            k = _stmt_end(tx, i, what)
+            for q in range(i, k + 1):
+                mask[q] = True
+            forms.append(x)
+            i = k + 1
+            continue
+        if x == 'assume' and nx == '(':
+            raise WeaveError('%s: `assume` inside a woven unit is not allowed' % what)
+        if x in CLAUSE_KW and (i == 0 or tx[i - 1] not in ('.', '::')):
+            # clause list up to (not including) the body brace at bracket depth 0
+            k = i
+            d = 0
+            while k < n:
+                if d == 0 and tx[k] == '{':
                     break
-                ins[i] = run
-            prev = j
-        if failure is None:
-            return ins, forms
-        i, prev, j, run, err = failure
-        # rotate left: the run starts with the token the repo token i was matched with
-        if i < len(base) and run[0].text == tmpl[j].text and ('L', i, prev + 1) not in tried:
-            tried.add(('L', i, prev + 1))
-            m[i] = prev + 1
+                if tx[k] in lexer.OPEN:
+                    d += 1
+                elif tx[k] in lexer.CLOSE:
+                    d -= 1
+                k += 1
+            if k >= n:
+                raise WeaveError('%s: clause list without body' % what)
+            for q in range(i, k):
+                mask[q] = True
+            forms.append('clauses')
+            i = k
             continue
-        if i > 0 and run[-1].text == tmpl[prev].text and ('R', i - 1, j - 1) not in tried:
-            tried.add(('R', i - 1, j - 1))
-            m[i - 1] = j - 1
+        if x == '->' and nx == '(' and i + 3 < n and tx[i + 3] == ':' and re.match(r'^[a-z_][a-z0-9_]*$', tx[i + 2]):
+            k = _close(tx, i + 1)
+            mask[i + 1] = mask[i + 2] = mask[i + 3] = True
+            mask[k] = True
+            forms.append('ret-name')
+            i = i + 4
             continue
-        raise err
-    raise WeaveError('%s: could not find a ghost-form alignment' % what)
+        if x == 'in' and i + 2 < n and tx[i + 2] == ':' and re.match(r'^[a-z_][a-z0-9_]*$', nx) and _in_for_header(tx, i):
+            mask[i + 1] = mask[i + 2] = True
+            forms.append('for-iter-name')
+            i = i + 3
+            continue
+        if x == '#' and nx == '[' and i + 2 < n and tx[i + 2] == 'verifier':
+            k = _close(tx, i + 1)
+            attr = ''.join(tx[i:k + 1])
+            if not ALLOWED_ATTR.match(attr):
+                raise WeaveError('%s: attribute %s may not be woven into a unit' % (what, attr))
+            for q in range(i, k + 1):
+                mask[q] = True
+            forms.append('attr')
+            i = k + 1
+            continue
+        i += 1
+    return mask, forms
+
+
+def _in_for_header(tx, i):
+    """tx[i] == 'in': is it the `in` of a `for PAT in` header?"""
+    k = i - 1
+    d = 0
+    while k >= 0:
+        if tx[k] in lexer.CLOSE:
+            d += 1
+        elif tx[k] in lexer.OPEN:
+            if d == 0:
+                return False
+            d -= 1
+        elif d == 0 and tx[k] == 'for':
+            return True
+        elif d == 0 and tx[k] in (';', '{', '}'):
+            return False
+        k -= 1
+    return False
+
+
+def insertions(base, tmpl, what):
+    """erase the ghost text from the template region; the rest must be the repo text token for token.
+    returns ins[p] = list of ghost tokens inserted before base token p (p == len(base): after the last)"""
+    mask, forms = ghost_mask(tmpl, what)
+    real = [t for t, g in zip(tmpl, mask) if not g]
+    bt, rt = texts(base), texts(real)
+    if bt != rt:
+        k = 0
+        while k < min(len(bt), len(rt)) and bt[k] == rt[k]:
+            k += 1
+        raise WeaveError('%s: template is not "repo text + specification text": after erasing the ghost text, token %d differs: '
+                         'repo `%s` (line %d of the normalised unit) vs template `%s`'
+                         % (what, k, ' '.join(bt[max(0, k - 6):k + 6]), base[k].line if k < len(base) else -1,
+                            ' '.join(rt[max(0, k - 6):k + 6])))
+    ins = {}
+    p = 0
+    for t, g in zip(tmpl, mask):
+        if g:
+            ins.setdefault(p, []).append(t)
+        else:
+            p += 1
+    return ins, forms
 
 
 def transport(base, cur, ins):
@@ -594,8 +498,7 @@ def weave_template(tmpl_path, repo=None, freeze=False):
         base, _ = lex2(base_text)
         tmpl, ttail = lex2(region)
         cur, _ = lex2(cur_text)
-        m = align_insert_only(base, tmpl, what)
-        ins, forms = insertions(base, tmpl, m, what)
+        ins, forms = insertions(base, tmpl, what)
         identical = texts(base) == texts(cur)
         u = Unit()
         u.spec = spec
